@@ -156,7 +156,8 @@ static void program(const std::string& cls, Rng& r) {
         if (cls == "ICMPv6" && (o->header_size() % 8)) { cnt("argument_not_multiple_of_8_octets"); o.reset(backup.release()); continue; }      // ND options are sized in units of 8 octets
         if (cls == "IPSecAH" && (o->header_size() % 4)) { cnt("argument_not_word_multiple"); o.reset(backup.release()); continue; }
         bool has_empty_list = val.find("[]") != std::string::npos;
-        if (!is_option) { try { val = f->get(*o); } catch (...) {} }      // scalar header field: exact inverse (incl. rejection of over-wide values) is C15's clause; C04 follows the value through the wire
+        if (!is_option && f->scalar_kind) { try { val = f->get(*o); } catch (...) {} }      // integral header field: exact inverse (incl. rejection of over-wide values) is C15's clause; C04 follows the value through the wire.
+        // Header fields of any other type (addresses, structs such as the STP bridge identifiers, fixed arrays) are nobody else's: the getter must return what was set
         prog += f->fname + "(" + val.substr(0, 60) + ") "; describe_case(prog);
         cnt(o->size() != size_before ? "steps:option-setter" : "steps:scalar-setter");
         // a set may legitimately change what aliasing getters return: forget their shadows
